@@ -121,3 +121,139 @@ pub fn replay(args: &[String]) {
     });
     s.print();
 }
+
+// ------------------------------------------------------------------ ObjectPath (Path.tla)
+fn emb_seg(s: &str, e: usize) -> String {
+    if e == 0 {
+        return s.to_string();
+    }
+    // multi-byte names with a byte-prefix relation (a / ab -> ü / üb)
+    match s {
+        "a" => "ü".to_string(),
+        "ab" => "üb".to_string(),
+        "b" => "βeta".to_string(),
+        o => o.to_string(),
+    }
+}
+
+fn render(segs: &Value, e: usize) -> String {
+    segs.as_array().unwrap().iter().map(|s| emb_seg(s.as_str().unwrap(), e)).collect::<Vec<_>>().join(".")
+}
+
+fn hash_of(p: &ObjectPath) -> u64 {
+    use std::hash::{Hash, Hasher};
+    let mut h = std::collections::hash_map::DefaultHasher::new();
+    p.hash(&mut h);
+    h.finish()
+}
+
+/// the same path built in the canonical way: parsed from its string (gate paths: parsed module path + appended_gate)
+fn canonical(view: &Value, e: usize) -> ObjectPath {
+    let segs = view["segs"].as_array().unwrap();
+    if view["module"] == true {
+        ObjectPath::from(render(&view["segs"], e).as_str())
+    } else {
+        let front = Value::Array(segs[..segs.len() - 1].to_vec());
+        ObjectPath::from(render(&front, e).as_str()).appended_gate(emb_seg(segs[segs.len() - 1].as_str().unwrap(), e))
+    }
+}
+
+fn check_view(p: &ObjectPath, view: &Value, e: usize, step: usize) -> Result<u64, Value> {
+    let fail = |field: &str, exp: Value, got: Value| json!({"field": format!("ObjectPath::{field}"), "expected": exp, "got": got, "step": step});
+    let s = render(&view["segs"], e);
+    if p.as_str() != s {
+        return Err(fail("as_str", json!(s), json!(p.as_str())));
+    }
+    if p.to_string() != s {
+        return Err(fail("to_string", json!(s), json!(p.to_string())));
+    }
+    if p.len() as u64 != view["len"].as_u64().unwrap() {
+        return Err(fail("len", view["len"].clone(), json!(p.len())));
+    }
+    let name = emb_seg(view["name"].as_str().unwrap(), e);
+    if p.name() != name {
+        return Err(fail("name", json!(name), json!(p.name())));
+    }
+    if p.is_root() != (view["root"] == true) {
+        return Err(fail("is_root", view["root"].clone(), json!(p.is_root())));
+    }
+    if p.is_module() != (view["module"] == true) {
+        return Err(fail("is_module", view["module"].clone(), json!(p.is_module())));
+    }
+    let pstr = render(&view["pstr"], e);
+    if p.as_parent_str() != pstr {
+        return Err(fail("as_parent_str", json!(pstr), json!(p.as_parent_str())));
+    }
+    for (key, got) in [("parent", p.parent()), ("nzparent", p.nonzero_parent())] {
+        let exp = &view[key];
+        match (exp[0].as_str().unwrap(), got) {
+            ("none", None) => {}
+            ("some", Some(g)) => {
+                let want = ObjectPath::from(render(&exp[1], e).as_str());
+                if g.as_str() != want.as_str() || g != want || hash_of(&g) != hash_of(&want) || g.name() != want.name() || g.len() != want.len() {
+                    return Err(fail(if key == "parent" { "parent" } else { "nonzero_parent" }, json!({"str": want.as_str(), "name": want.name(), "len": want.len()}),
+                                    json!({"str": g.as_str(), "name": g.name(), "len": g.len(), "equal_to_parsed": g == want})));
+                }
+            }
+            (e2, g) => return Err(fail(if key == "parent" { "parent" } else { "nonzero_parent" }, json!(e2), json!(g.map(|x| x.as_str().to_string())))),
+        }
+    }
+    // however it was built, the path equals (and hashes like) the canonically built one: module lookups go by path
+    let c = canonical(view, e);
+    if *p != c || hash_of(p) != hash_of(&c) {
+        return Err(fail("eq / hash against the same path built from its string", json!(true), json!({"eq": *p == c, "same_hash": hash_of(p) == hash_of(&c)})));
+    }
+    Ok(10)
+}
+
+fn path_one(steps: &[Value], e: usize) -> Result<u64, Value> {
+    let mut checks = 0;
+    let mut cur = ObjectPath::from(render(&steps[0]["view"]["segs"], e).as_str());
+    checks += check_view(&cur, &steps[0]["view"], e, 0)?;
+    for (i, st) in steps.iter().enumerate().skip(1) {
+        let seg = st["seg"].as_str().map(|s| emb_seg(s, e)).unwrap_or_default();
+        match st["op"].as_str().unwrap() {
+            "appended" => cur = cur.appended(&seg),
+            "appended_gate" => cur = cur.appended_gate(&seg),
+            "parent" => match (st["res"].as_str().unwrap(), cur.parent()) {
+                ("none", None) => {}
+                ("some", Some(p)) => cur = p,
+                (exp, got) => return Err(json!({"field": "ObjectPath::parent", "expected": exp, "got": got.map(|x| x.as_str().to_string()), "step": i})),
+            },
+            o => panic!("unknown op {o}"),
+        }
+        checks += check_view(&cur, &st["view"], e, i)?;
+    }
+    Ok(checks)
+}
+
+/// `vh tree paths <file>`: behaviours of Path.tla on des::net::ObjectPath
+pub fn paths(args: &[String]) {
+    let path = &args[0];
+    let mut s = Summary::default();
+    for_each_line(path, |li, v| {
+        s.behaviours += 1;
+        let steps = v.as_array().unwrap();
+        if li < 1 {
+            s.sample(v.clone());
+        }
+        if steps.iter().any(|x| x["op"] == "parent") && steps.iter().any(|x| x["op"] == "appended") {
+            s.nontrivial += 1;
+        }
+        for e in 0..2 {
+            s.replays += 1;
+            watchdog::enter(|| json!({"steps": v, "emb": e}).to_string());
+            let r = catch_unwind(AssertUnwindSafe(|| path_one(steps, e)));
+            match r {
+                Ok(Ok(c)) => s.checks += c,
+                Ok(Err(mut m)) => {
+                    m["emb"] = json!(e);
+                    m["behaviour"] = v.clone();
+                    s.mismatch(m);
+                }
+                Err(_) => s.mismatch(json!({"field": "an ObjectPath operation panicked", "emb": e, "behaviour": v})),
+            }
+        }
+    });
+    s.print();
+}
